@@ -63,8 +63,35 @@ def replay():
         c11 = 4 / 3 * constants.TR
         want3 = ((2 * b0) * l2 - full @ l2 + l2 @ emb - c11 * (d1 @ emb) + c11**2 * emb) / 3
         if np.max(np.abs((l3 - want3)[:, :2])) > 1e-7 * max(1.0, np.max(np.abs(want3))): out.append(f"nf={nf}: L^3 coefficient of A3 differs from the RG prediction by {np.max(np.abs((l3 - want3)[:, :2])):.2e}")
+        # L^2 coefficient of A3 (Lagrange coefficients of a cubic through L = 0, 1, 2, 3), NLO anomalous dimensions and the decoupling of the coupling
+        from ekore.anomalous_dimensions.unpolarized.space_like import as2 as g2
+        from eko import couplings as cpl
+        l2_3 = (-a3[3] + 4 * a3[2] - 5 * a3[1] + 2 * a3[0]) / 2
+        l1_2 = (-a2[2] + 4 * a2[1] - 3 * a2[0]) / 2
+        def g1(n_f):
+            return g2.gamma_gg(N, n_f, hc.reset()), g2.gamma_gq(N, n_f, hc.reset()), g2.gamma_qg(N, n_f, hc.reset()), g2.gamma_nsp(N, n_f, hc.reset()), g2.gamma_ps(N, n_f)
+        gg_, gq_, qg_, nsp_, ps_ = g1(nf); gg1_, gq1_, qg1_, nsp1_, ps1_ = g1(nf + 1)
+        r = nf / (nf + 1)
+        emb1 = np.array([[gg_, gq_, 0], [qg_, nsp_ + ps_, 0], [0, 0, 0]])
+        full1 = np.array([[gg1_, gq1_, gq1_], [r * qg1_, nsp1_ + r * ps1_, r * ps1_], [qg1_ / (nf + 1), ps1_ / (nf + 1), nsp1_ + ps1_ / (nf + 1)]])
+        cd = cpl.compute_matching_coeffs_down("POLE", nf)
+        b1 = beta.beta_qcd((3, 0), nf + 1)
+        A1c = ous.A_singlet((1, 0), N, nf, 0.0, False)[0]
+        want2_3 = ((2 * b0) * l1_2 - full @ l1_2 + l1_2 @ emb + b1 * d1 - full1 @ d1 + d1 @ emb1 + 2 * cd[1, 1] * emb1 + cd[2, 1] * emb + cd[1, 1] * (A1c @ emb)) / 2
+        dev = np.max(np.abs((l2_3 - want2_3)[:, :2])) / max(1.0, np.max(np.abs(want2_3)))
+        if dev > 1e-4: out.append(f"nf={nf}: L^2 coefficient of A3 differs from the RG prediction by {dev:.2e} (relative)")
+        # every element on an empty cache is the entry of the tower
+        from ekore.operator_matrix_elements.unpolarized.space_like import as3 as o3
+        for Nv in (2.5 + 0.0j, 3.3 + 0.8j):
+            tower = ous.A_singlet((3, 0), Nv, nf, 0.7, False)[2]
+            for name, val, ent in (("A_Hq", o3.A_Hq(Nv, hc.reset(), nf, 0.7), tower[2, 1]), ("A_Hg", o3.A_Hg(Nv, hc.reset(), nf, 0.7), tower[2, 0]), ("A_gq", o3.A_gq(Nv, hc.reset(), nf, 0.7), tower[0, 1]),
+                                   ("A_gg", o3.A_gg(Nv, hc.reset(), nf, 0.7), tower[0, 0]), ("A_qg", o3.A_qg(Nv, hc.reset(), nf, 0.7), tower[1, 0])):
+                if abs(val - ent) > 1e-9 * max(1.0, abs(ent)): out.append(f"nf={nf}, N={Nv}: {name} on an empty cache is {val}, in the tower {ent}")
     return bool(out), "; ".join(out[:4]) if out else "sum rules and RG structure of the matching elements hold natively"
 '''
+
+
+TOL_L2A3 = 1e-4        # observed on the unchanged tree: 2.4e-6 (the NLO anomalous dimensions contain approximated Mellin transforms)
 
 
 def run(chk):
@@ -196,8 +223,69 @@ def run(chk):
                     chk.ground(f"C29.rg.order3.non_singlet.higher_logs[nf={nf}]", worst <= 1e-6, fn="ekore.operator_matrix_elements.unpolarized.space_like:A_non_singlet", replay=rp, backend="exact-eval+mpmath",
                                goal="[L^3] and [L^2] of A_qq,ns^(3) equal the RG values built from beta0(nf+1), gamma_ns^(0), gamma_ns-^(1)(nf), the O(a_s^2) logs and the decoupling coefficients, at 6 sample moments to 1e-6 (the NLO ingredients contain approximated Mellin transforms: observed 6e-8)",
                                detail=f"largest relative deviation {worst:.2e} at (N, coefficient, code, RG) = {where}")
+                    # O(a_s^3) singlet double logs through the dispatcher, from the a^3 order of the same chain rule
+                    #   dA3/dL = 2 beta0' A2 + beta1' A1 - gamma2' - gamma1' A1 - gamma0' A2 + gamma2_emb + 2 d1 gamma1_emb + d2 gamma0_emb + A1 (gamma1_emb + d1 gamma0_emb) + A2 gamma0_emb,
+                    # d1 = d11 L, d2 = d20 + d21 L + d22 L^2 the decoupling of the coupling; its coefficient of L gives
+                    #   2 [L^2]A3 == (2 beta0' - gamma0') [L^1]A2 + [L^1]A2 gamma0_emb + (beta1' - gamma1') A1' + A1' gamma1_emb + 2 d11 gamma1_emb + d21 gamma0_emb + d11 A1(L=0) gamma0_emb
+                    b1 = beta.beta_qcd((3, 0), nf + 1)
+                    l1m = np.array(l1, dtype=object)
+                    A1c = np.vectorize(lambda e: coeffs_in(T.lift(e), "L", 2)[0], otypes=[object])(np.array(A1, dtype=object))
+                    l2_3 = np.vectorize(lambda e: coeffs_in(T.lift(e), "L", 4)[2], otypes=[object])(np.array(A3, dtype=object))
+                    spec2_3 = ((2 * b0) * l1m - full @ l1m + l1m @ emb + b1 * dA1 - full1 @ dA1 + dA1 @ emb1 + (2 * cd[1, 1]) * emb1 + cd[2, 1] * emb + cd[1, 1] * (A1c @ emb)) / 2
+                    worst, where = 0.0, None
+                    for Nv in (Q(5, 2), Q(3), Q(17, 5), Q(4), Q(27, 5), Q(71, 10), Q(8)):      # odd, even and non-integer moments: the singlet continuation (eta = +1) is what the elements must use
+                        for r in range(3):
+                            for cidx in (0, 1):
+                                x = complex(T.evalmp(T.lift(l2_3[r, cidx]), {"N": Nv}, 40))
+                                y = complex(T.evalmp(T.lift(spec2_3[r, cidx]), {"N": Nv}, 40))
+                                dev = abs(x - y) / max(1.0, abs(y))
+                                if dev > worst:
+                                    worst, where = dev, (float(Nv), r, cidx, x, y)
+                    chk.ground(f"C29.rg.order3.double_logs[nf={nf}]", worst <= TOL_L2A3, fn="ekore.operator_matrix_elements.unpolarized.space_like:A_singlet", replay=rp, backend="exact-eval+mpmath",
+                               goal="[L^2] A3 equals the RG value built from beta0', beta1', the LO and NLO anomalous dimensions of both schemes, the O(a_s), O(a_s^2) logs and the decoupling coefficients; gluon and light-quark columns, 7 sample moments (odd, even, non-integer), to 1e-4",
+                               detail=f"largest relative deviation {worst:.2e} at (N, row, column, code, RG) = {where}")
                     chk.eq_array(f"C29.rg.order2.double_logs[nf={nf}]", l2[sel2], spec[sel2], fn="ekore.operator_matrix_elements.unpolarized.space_like.as2:A_singlet", replay=rp, ranges=RG,
                                  goal="[L^2] A2 == 1/2 (A1' gamma0_emb - gamma0' A1' + beta0' A1' - 4/3 T_R gamma0_emb), gluon and light-quark columns")
+        # ---- (4) the elements on their own -----------------------------------------------------------------------------------------------------------
+        # The statements above are made through the dispatchers, where the elements of one order share the harmonic-sum cache with the orders computed
+        # before.  Every element function has the contract "for every well-formed cache (entries absent or equal to the sum of this N in the singlet /
+        # non-singlet continuation the element asks for) the value is the same": evaluated on an EMPTY cache it must be the entry of the tower.
+        us2 = importlib.import_module("ekore.operator_matrix_elements.unpolarized.space_like.as2")
+        us3 = importlib.import_module("ekore.operator_matrix_elements.unpolarized.space_like.as3")
+        ps2 = importlib.import_module("ekore.operator_matrix_elements.polarized.space_like.as2")
+        SAMPLES = ({"N": Q(5, 2), "L": Q(7, 10)}, {"N": Q(17, 5), "L": Q(-2)}, {"N": Q(3), "L": Q(3, 2)})
+
+        def same_value(a, b):
+            a, b = T.lift(a), T.lift(b)
+            if a.n == b.n:
+                return True, ""
+            for pt in SAMPLES:
+                x, y = complex(T.evalmp(a, pt, 40)), complex(T.evalmp(b, pt, 40))
+                if abs(x - y) > 1e-25 * max(1.0, abs(y)):
+                    return False, f"at N = {float(pt['N'])}, L = {float(pt['L'])}: {x} on an empty cache, {y} in the tower"
+            return True, ""
+
+        for nf in (3, 4, 5):
+            tower = ous.A_singlet((3, 0), N, nf, L, False)
+            tower_ns = ous.A_non_singlet((3, 0), N, nf, L)
+            alone = [
+                ("as2.A_gg", lambda: us2.A_gg(N, hc.reset(), L), tower[1][0, 0]), ("as2.A_gq", lambda: us2.A_gq(N, hc.reset(), L), tower[1][0, 1]),
+                ("as2.A_hg", lambda: us2.A_hg(N, hc.reset(), L), tower[1][2, 0]), ("as2.A_hq_ps", lambda: us2.A_hq_ps(N, hc.reset(), L), tower[1][2, 1]),
+                ("as2.A_qq_ns", lambda: us2.A_qq_ns(N, hc.reset(), L), tower[1][1, 1]), ("as2.A_qq_ns(non-singlet tower)", lambda: us2.A_qq_ns(N, hc.reset(), L), tower_ns[1][0, 0]),
+                ("as3.A_gg", lambda: us3.A_gg(N, hc.reset(), nf, L), tower[2][0, 0]), ("as3.A_gq", lambda: us3.A_gq(N, hc.reset(), nf, L), tower[2][0, 1]),
+                ("as3.A_qg", lambda: us3.A_qg(N, hc.reset(), nf, L), tower[2][1, 0]), ("as3.A_Hg", lambda: us3.A_Hg(N, hc.reset(), nf, L), tower[2][2, 0]),
+                ("as3.A_Hq", lambda: us3.A_Hq(N, hc.reset(), nf, L), tower[2][2, 1]),
+                ("as3.A_qqPS+A_qqNS", lambda: us3.A_qqPS(N, hc.reset(), nf, L) + us3.A_qqNS(N, hc.reset(), nf, L, 1), tower[2][1, 1]),
+                ("as3.A_qqNS(non-singlet tower)", lambda: us3.A_qqNS(N, hc.reset(), nf, L, -1), tower_ns[2][0, 0]),
+            ]
+            if nf == 3:
+                ptower = ops.A_singlet((2, 0), N, nf, L)
+                alone += [("polarised as2.A_gg", lambda: ps2.A_gg(N, hc.reset(), L), ptower[1][0, 0]), ("polarised as2.A_gq", lambda: ps2.A_gq(N, hc.reset(), L), ptower[1][0, 1]),
+                          ("polarised as2.A_hg", lambda: ps2.A_hg(N, hc.reset(), L), ptower[1][2, 0]), ("polarised as2.A_hq_ps", lambda: ps2.A_hq_ps(N, hc.reset(), L, nf), ptower[1][2, 1])]
+            for name, thunk, entry in alone:
+                ok, why = same_value(thunk(), entry)
+                chk.ground(f"C29.alone[{name},nf={nf}]", ok, fn="ekore.operator_matrix_elements:" + name.split("(")[0].replace("polarised ", "polarized."), replay=rp, backend="syntactic-identity+exact-eval",
+                           goal="the element evaluated on an empty harmonic-sum cache equals the entry of the matching tower (where the cache was filled by the lower orders): its value does not depend on the cache history", detail=why)
     finally:
         undo()
     chk.extra["exhaustive"] = True
